@@ -282,6 +282,82 @@ pub fn c05_cases(rng: &mut Rng, tier: &str, out: &mut Out) {
     }
 }
 
+/// C05, completeness on undamaged COMPRESSED archives spanning many blocks (where a block's
+/// compressed stream ends relative to the fail-safe reader's refills varies from archive to
+/// archive): repaired from memory and from sources returning 1, 2, 3 or 7 bytes per read.
+pub fn c05_blocks_cases(rng: &mut Rng, tier: &str, out: &mut Out) {
+    let n = if tier == "thorough" { 1200 } else { 160 };
+    let (lo, hi) = if cfg!(feature = "scaled") { (300u64, 3000u64) } else { (3_000_000, 9_000_000) };
+    let n = if cfg!(feature = "scaled") { n } else { n / 40 };
+    for k in 0..n {
+        let layers = if k % 3 == 2 { L_COMP | L_ENC } else { L_COMP };
+        let nfiles = rng.range(1, 3) as usize;
+        let names: Vec<Vec<u8>> = (0..nfiles).map(|i| format!("f{i}").into_bytes()).collect();
+        let total = rng.range(lo, hi) as usize;
+        let entropy = rng.below(3);
+        let mut pieces = Vec::new();
+        let mut left = total;
+        while left > 0 {
+            let m = (rng.range(1, (total / 2).max(2) as u64) as usize).min(left);
+            let data: Vec<u8> = match entropy {
+                0 => vec![(pieces.len() % 251) as u8; m],
+                1 => (0..m).map(|i| b"the quick brown fox jumps over the lazy dog "[(i + pieces.len()) % 44]).collect(),
+                _ => rng.bytes(m),
+            };
+            pieces.push((rng.below(nfiles as u64) as usize, data));
+            left -= m;
+        }
+        let plan = Plan { names, pieces, layers, level: *rng.pick(&[0u32, 1, 5, 9, 11]), recipients: 1, reader_key: 0 };
+        let Ok(built) = build(rng, &plan) else { continue };
+        let mut msg: Option<String> = None;
+        let complete = |r: &Repaired, how: &str| -> Option<String> {
+            if let Some(p) = &r.crashed {
+                return Some(format!("undamaged compressed archive ({how}): repair panicked: {p}"));
+            }
+            if r.status != Some(12) || !r.unfinished.is_empty() {
+                return Some(format!("undamaged compressed archive ({how}): status {:?}, {} unfinished", r.status, r.unfinished.len()));
+            }
+            for (i, c) in built.contents.iter().enumerate() {
+                let got = r.files.iter().find(|f| f.0 == plan.names[i]).map(|f| f.1.len()).unwrap_or(0);
+                if r.files.iter().find(|f| f.0 == plan.names[i]).map(|f| &f.1) != Some(c) {
+                    return Some(format!("undamaged compressed archive ({how}): file {i}: {got} of {} bytes recovered", c.len()));
+                }
+            }
+            None
+        };
+        for unauth in [false, true] {
+            if unauth && layers & L_ENC == 0 {
+                continue;
+            }
+            let r = repair_bytes(&built.bytes, &built.privs, unauth);
+            if msg.is_none() {
+                msg = complete(&r, "from memory");
+            }
+        }
+        for piece in [1usize, 2, 3, 7] {
+            if msg.is_some() || (k % 4 != piece % 4 && tier != "thorough") {
+                continue;
+            }
+            let r = repair_with(ThrottledReader::new(built.bytes.as_slice(), vec![piece]), &built.privs, true);
+            msg = complete(&r, &format!("from a source returning {piece} bytes per read"));
+        }
+        let total_stream = total + 60 * nfiles;
+        let blocks = if cfg!(feature = "scaled") { total_stream / 256 } else { total_stream / (4 << 20) };
+        out.case(&Case {
+            id: format!("c05-blocks-{k}"),
+            model_fn: "",
+            args: vec![],
+            imp: json!([]),
+            oracle_ok: msg.is_none(),
+            oracle_msg: msg.unwrap_or_default(),
+            class: format!("intact-compressed layers={layers} entropy={entropy} blocks={}", blocks.min(12)),
+            nontrivial: true,
+            meta: json!({"layers": layers, "level": plan.level, "entropy": entropy, "total": total, "archive_len": built.bytes.len(),
+                         "pieces": plan.pieces.iter().map(|p| (p.0, p.1.len())).collect::<Vec<_>>()}),
+        });
+    }
+}
+
 /// Number of plaintext (block stream) bytes repair may use from the first `cut` archive bytes.
 pub fn usable_plain_len(plan: &Plan, built: &Built, cut: usize, unauth: bool) -> usize {
     let body = cut - built.header_len;
